@@ -644,12 +644,12 @@ def malformed_cases(rng):
 def random_cases(ctx):
     rng = ctx.rng
     out = []
-    for _ in range(ctx.scale(1400, 40000)):
+    for _ in range(ctx.scale(1400, 20000)):
         shape = rng.choice(SHAPES + ["latepeak", "walk"])
         n = gen_len(rng, ctx.thorough) if rng.random() > 0.03 else rng.randint(1, 3)
         xs = gen_series(rng, shape, n, rng.choice([0.002, 0.05, 0.3]))
         out.append({"fn": "mdd", "xs": [repr(v) for v in xs], "shape": shape})
-    for _ in range(ctx.scale(260, 6000)):
+    for _ in range(ctx.scale(260, 3000)):
         shape = rng.choice(SHAPES)
         n = min(gen_len(rng, ctx.thorough), 400)
         name, sec = rng.choice(INTERVALS)
@@ -658,7 +658,7 @@ def random_cases(ctx):
         dk = rng.choice(["index", "index", "half", "double", "year"])
         d = {"index": n * sec / 86400, "half": n * sec / 172800, "double": n * sec / 43200, "year": 365.0}[dk]
         out.append({"fn": "returns", "xs": [repr(v) for v in xs], "d": repr(float(d)), "shape": shape, "dk": f"{name}/{dk}"})
-    for _ in range(ctx.scale(220, 5000)):
+    for _ in range(ctx.scale(220, 2500)):
         shape = rng.choice(["walk", "walk", "rising", "falling", "vshape", "constant", "grid", "ints"])
         n = min(gen_len(rng, ctx.thorough), 300 if ctx.thorough else 60)
         name, sec = rng.choice(INTERVALS)
@@ -670,7 +670,7 @@ def random_cases(ctx):
             bs = list(xs)           # benchmark = portfolio: beta 1, alpha 0
         out.append({"fn": "stats", "xs": [repr(v) for v in xs], "bench": [repr(v) for v in bs], "interval": repr(sec / 86400), "d": repr(n * sec / 86400),
                     "rf": repr(rng.choice([0.0, 0.03, 0.05])), "shape": shape})
-    for _ in range(ctx.scale(160, 4000)):
+    for _ in range(ctx.scale(160, 2000)):
         shape = rng.choice(["walk", "walk", "rising", "falling", "vshape", "latepeak"])
         n = min(gen_len(rng, ctx.thorough), 200 if ctx.thorough else 50)
         name, sec = rng.choice(INTERVALS)
